@@ -28,25 +28,37 @@ Print Assumptions C11_interest_iff_buffered.
    requested, the closing step is not a write, and every byte written so far has been accepted by the OS *)
 Theorem C11_close_after_drain : forall k ops s evs1 o,
   run (fixed k) init ops = (Open s, evs1) ->
-  fst (step (fixed k) (Open s) o) = Closed ->
+  fst (step (fixed k) (Open s) o) = Closed empty ->
   has_fatal (snd (step (fixed k) (Open s) o)) = false ->
   accepted (evs1 ++ snd (step (fixed k) (Open s) o)) = written (ops ++ [o]) /\
   (closereq s = true \/ o = Close) /\ o <> Write (pay o).
 Proof. exact close_after_drain. Qed.
 Print Assumptions C11_close_after_drain.
 
-(* nothing is written after the endpoint has closed: no further event of any kind ... *)
-Theorem C11_nothing_after_close : forall k ops1 ops2,
-  fst (run (fixed k) init ops1) = Closed ->
-  run (fixed k) init (ops1 ++ ops2) = run (fixed k) init ops1.
+(* nothing is written after the endpoint has closed.  The closed endpoint's transitions are those of the code
+   (Server: write/close/_on_write return for a socket not in _clients; Client: write returns when the socket
+   is closed, close finds an empty buffer and _close returns; File: write returns when the file is closed,
+   close likewise): once closed NO state is kept (c = empty: no buffered payload, no pending close, no writer
+   interest) and whatever operations follow - writes, closes, poller iterations with any outcome - leave the
+   state and the event list exactly as they were: no send call, no state, no event *)
+Theorem C11_nothing_after_close : forall k ops1 ops2 c,
+  fst (run (fixed k) init ops1) = Closed c ->
+  c = empty /\ run (fixed k) init (ops1 ++ ops2) = run (fixed k) init ops1.
 Proof. exact nothing_after_close. Qed.
 Print Assumptions C11_nothing_after_close.
+
+(* the only transition the model does not transcribe (a `_write` event for a closed endpoint that still has
+   writer interest) is never reached *)
+Theorem C11_always_modelled : forall k ops,
+  existsb is_unmodelled (snd (run (fixed k) init ops)) = false.
+Proof. exact always_modelled. Qed.
+Print Assumptions C11_always_modelled.
 
 (* ... and inside the closing step the descriptor is closed after the last send: the only thing that ever
    follows the close of the descriptor is the disconnect event *)
 Theorem C11_close_is_last : forall k ops x y,
   snd (run (fixed k) init ops) = x ++ SockClose :: y ->
-  y = [EvDisc] /\ fst (run (fixed k) init ops) = Closed.
+  y = [EvDisc] /\ fst (run (fixed k) init ops) = Closed empty.
 Proof. exact close_is_last. Qed.
 Print Assumptions C11_close_is_last.
 
@@ -54,7 +66,7 @@ Print Assumptions C11_close_is_last.
    disconnect event, hands nothing more to the OS, and the bytes accepted up to then are a prefix *)
 Theorem C11_fatal_signalled : forall k ops s evs1 e,
   run (fixed k) init ops = (Open s, evs1) -> transient e = false -> buf s <> [] ->
-  fst (step (fixed k) (Open s) (Tick (Refuse e))) = Closed /\
+  fst (step (fixed k) (Open s) (Tick (Refuse e))) = Closed empty /\
   signalled (snd (step (fixed k) (Open s) (Tick (Refuse e)))) = true /\
   accepted (snd (step (fixed k) (Open s) (Tick (Refuse e)))) = [] /\
   exists rest, accepted evs1 ++ rest = written ops.
@@ -77,7 +89,7 @@ Theorem C11_drains : forall k ops s evs1 kk,
   run (fixed k) init ops = (Open s, evs1) ->
   Forall (fun d => (N.of_nat (length d) <= kk)%N) (buf s) ->
   let r := run (fixed k) init (ops ++ repeat (Tick (Accept kk)) (length (buf s))) in
-  fst r = (if closereq s then Closed else Open drained) /\
+  fst r = (if closereq s then Closed empty else Open drained) /\
   accepted (snd r) = written ops /\
   sock_closed (snd r) = closereq s.
 Proof. exact drains. Qed.
@@ -97,6 +109,44 @@ Theorem C11_trace_is_run : forall p ops st,
 Proof. exact trace_is_run. Qed.
 Print Assumptions C11_trace_is_run.
 
+(* ---- the Server with its real tables (_clients, _buffers, _closeq, the poller's writer list), any number
+   of connections, any interleaving of operations and outcomes (ops : list mop; On t o = operation o for
+   socket t, CloseAll = close() without argument) *)
+
+(* refinement: projected on any socket s, the tables behave exactly as the per-connection model run on the
+   operations that concern s *)
+Theorem C11_server_refines : forall ops m s, wf m ->
+  view (fst (mrun m ops)) s = fst (run (fixed Server) (view m s) (proj s ops)) /\
+  projev s (snd (mrun m ops)) = snd (run (fixed Server) (view m s) (proj s ops)).
+Proof. exact server_refines. Qed.
+Print Assumptions C11_server_refines.
+
+(* isolation: what is handed to the OS for socket s (and every event for s, and s's state) is the same in any
+   two histories that agree on the operations and outcomes for s - operations and outcomes for t <> s never
+   change it *)
+Theorem C11_server_isolation : forall l ops1 ops2 s, NoDup l -> proj s ops1 = proj s ops2 ->
+  projev s (snd (mrun (fresh l) ops1)) = projev s (snd (mrun (fresh l) ops2)) /\
+  view (fst (mrun (fresh l) ops1)) s = view (fst (mrun (fresh l) ops2)) s.
+Proof. exact server_isolation. Qed.
+Print Assumptions C11_server_isolation.
+
+(* C11_prefix per connection, for any interleaving *)
+Theorem C11_server_prefix : forall l ops s, NoDup l -> In s l ->
+  exists rest, accepted (projev s (snd (mrun (fresh l) ops))) ++ rest = written (proj s ops) /\
+               forall o, view (fst (mrun (fresh l) ops)) s = Open o -> rest = concat (buf o).
+Proof. exact server_prefix. Qed.
+Print Assumptions C11_server_prefix.
+
+(* after the disconnect of s the tables hold nothing for s, and nothing more is handed to the OS or signalled
+   for s whatever follows (on any socket) *)
+Theorem C11_server_nothing_after_close : forall l ops1 ops2 s c, NoDup l -> In s l ->
+  view (fst (mrun (fresh l) ops1)) s = Closed c ->
+  c = empty /\
+  view (fst (mrun (fresh l) (ops1 ++ ops2))) s = Closed empty /\
+  projev s (snd (mrun (fresh l) (ops1 ++ ops2))) = projev s (snd (mrun (fresh l) ops1)).
+Proof. exact server_nothing_after_close. Qed.
+Print Assumptions C11_server_nothing_after_close.
+
 (* the code before the patches violates C11_prefix: Client and File lose the payload that was refused with
    EAGAIN (and send the next one); Client keeps sending after ECONNRESET, leaving a gap *)
 Theorem C11_legacy_client_refuted :
@@ -114,10 +164,20 @@ Theorem C11_legacy_client_gap_refuted :
 Proof. exact legacy_client_gap. Qed.
 Print Assumptions C11_legacy_client_gap_refuted.
 
+(* before the repair a closed File kept a late payload, registered writer interest for the closed file and
+   remembered a late close (C11_nothing_after_close fails for `legacy File`), and the next `_write` event
+   reaches the untranscribed transition (ValueError from fileno() in the real code) *)
+Theorem C11_legacy_file_late_refuted :
+  fst (run (legacy File) init late_witness) =
+    Closed {| buf := [[7%N]]; closereq := true; writing := true |} /\
+  existsb is_unmodelled (snd (run (legacy File) init (late_witness ++ [Tick (Accept 9%N)]))) = true.
+Proof. exact (conj legacy_file_keeps_state legacy_file_late_unmodelled). Qed.
+Print Assumptions C11_legacy_file_late_refuted.
+
 (* non-vacuity: a run with a transient refusal, a partial send, a deferred close and a late write *)
 Example C11_ex_run :
   run (fixed Client) init ex_ops =
-  (Closed, [SendErr [1; 2; 3]%N EAGAIN; Send [1; 2; 3]%N 2; Send [3]%N 1; SendErr [] EINTR; Send [] 0;
+  (Closed empty, [SendErr [1; 2; 3]%N EAGAIN; Send [1; 2; 3]%N 2; Send [3]%N 1; SendErr [] EINTR; Send [] 0;
             Send [4; 5]%N 2; SockClose; EvDisc]).
 Proof. vm_compute. reflexivity. Qed.
 Example C11_ex_accepted :
@@ -127,7 +187,7 @@ Proof. vm_compute. split; reflexivity. Qed.
 Example C11_ex_open :
   exists s evs, run (fixed Server) init (firstn 6 ex_ops) = (Open s, evs) /\ closereq s = true /\
                 buf s = [[3]; []; [4; 5]]%N /\
-                fst (step (fixed Server) (Open s) (Tick (Refuse EPIPE))) = Closed /\
+                fst (step (fixed Server) (Open s) (Tick (Refuse EPIPE))) = Closed empty /\
                 Forall (fun d => (N.of_nat (length d) <= 9)%N) (buf s).
 Proof.
   eexists. eexists. split; [vm_compute; reflexivity|]. cbn [closereq buf].
@@ -141,3 +201,19 @@ Example C11_ex_fatal_kinds :
   snd (step (fixed File) (Open {| buf := [[7%N]]; closereq := false; writing := true |}) (Tick (Refuse EPIPE)))
     = [SendErr [7%N] EPIPE; EvError; SockClose; EvDisc].
 Proof. vm_compute. repeat split; reflexivity. Qed.
+(* two connections interleaved: socket 1's refusals and close leave socket 0's stream alone; close() closes
+   the drained socket 0 at once and defers socket 2, which still has data *)
+Example C11_ex_server :
+  let ops := [On 0 (Write [1; 2]%N); On 1 (Write [9]%N); On 2 (Write [5]%N); On 1 (Tick (Refuse EPIPE));
+              On 0 (Tick (Accept 1)); On 1 (Write [8]%N); On 0 (Tick (Accept 7)); CloseAll;
+              On 2 (Tick (Accept 7)); On 0 (Write [3]%N)]%nat in
+  snd (mrun (fresh [0; 1; 2]%nat) ops) =
+    [(1, SendErr [9]%N EPIPE); (1, EvError); (1, SockClose); (1, EvDisc);
+     (0, Send [1; 2]%N 1); (0, Send [2]%N 1); (0, SockClose); (0, EvDisc);
+     (2, Send [5]%N 1); (2, SockClose); (2, EvDisc)]%nat /\
+  fst (mrun (fresh [0; 1; 2]%nat) ops) = {| clients := []; buffers := []; closeq := []; writers := [] |} /\
+  wf (fresh [0; 1; 2]%nat).
+Proof.
+  cbn zeta. split; [vm_compute; reflexivity|]. split; [vm_compute; reflexivity|].
+  apply wf_fresh. repeat constructor; cbn; intuition discriminate.
+Qed.
